@@ -102,6 +102,8 @@ class FIXSRC(cccc.Stream):
 
         ng = self.fc["ngroup"]
         nz = self.fc["nintk"]
+        if self.fixSrc.size == 0:
+            self.fixSrc = np.zeros((self.fc["ninti"], self.fc["nintj"], nz, ng))
         for g in range(ng):
             for z in range(nz):
                 self._rw3DRecord(g, z)
